@@ -1,6 +1,10 @@
-"""C05 (bounded stand-in): the EDIF reader builds exactly the design the file describes."""
-from props import _rtb
-LEVEL = 'exploration'
+"""C05: string VCs generated from the real AST of EdifParser.separate_name_and_index (how a bit net is recognised and split) +
+bounded stand-in for the reader as a whole."""
+import json, sys
+from props import _rtb, _pv
+from vlib.report import VERIF, REPO
+from vlib.native import run_native
+LEVEL = 'other'
 PID = 'C05'
 SCRIPT = 'b_c05.py'
 SPEC = {'quick': {'designs': 150, 'styles': 4, 'files': {'edif': 70000}, 'limit': 20, 'file_limit': 60},
@@ -10,14 +14,59 @@ RULE = ('case = (seeded abstract design, style) rendered by the independent EDIF
         'instance, one connected net and one bus (array port or multi-bit net); bundled archives count when they parse')
 
 
+def _split_contract(rep):
+    sys.path.insert(0, VERIF); sys.setrecursionlimit(20000)
+    from specs import edifsplit
+    res, shas, deg = edifsplit.run(REPO)
+    rep.functions.update(shas)
+    for fn, why in deg.items(): rep.degrade(fn, why)
+    for name, status, t, detail, be in res:
+        model = be if isinstance(be, dict) else None
+        rep.p(name, status, be if isinstance(be, str) and be else 'z3', t, 'EdifParser.separate_name_and_index', detail if status != 'discharged' else None)
+        if status != 'failed': continue
+        sep = '[' if '/bracket/' in name else '_'
+        if model and 'name' in model:
+            out = run_native('replay_edifsplit.py', {'name': model['name'], 'sep': sep})
+            if isinstance(out, dict) and out.get('agrees') is False:
+                rep.violation(name, 'obligation %s refuted; counterexample replayed on the real code: separate_name_and_index(%r, %r) -> %s, the contract says %s' % (
+                    name, model['name'][:40] + ('...' if len(model['name']) > 40 else ''), sep, str(out.get('got'))[:80], str(out.get('want'))[:80]),
+                    replay={'kind': 'string-model', 'obligation': name, 'name': model['name'], 'sep': sep, 'native': out, 'solver_output': str(detail)[:600]})
+                continue
+        out = run_native('replay_edifsplit.py', {'search': True, 'sep': sep})
+        if isinstance(out, dict) and out.get('agrees') is False:
+            rep.violation(name, 'obligation %s is no longer discharged (%s); a native search behind it found: separate_name_and_index(%r, %r) -> %s, the contract says %s' % (
+                name, str(detail)[:120], out['name'], sep, str(out.get('got'))[:80], str(out.get('want'))[:80]),
+                replay={'kind': 'string-model', 'obligation': name, 'name': out['name'], 'sep': sep, 'native': out, 'solver_output': str(detail)[:600]})
+            continue
+        rep.violation(name, 'obligation %s is no longer discharged (%s)' % (name, str(detail)[:200]),
+                      replay={'kind': 'obligation', 'obligation': name, 'solver_output': str(detail)[:1500]}, nfi=True)
+    if not res and not deg: rep.error('zero obligations generated for C05')
+
+
 def run(rep, tier, seed):
-    rep.explanation = ('bounded stand-in only: contract on sdn.parse(.edf) against an independent writer and canonicaliser '
+    _split_contract(rep)
+    rep.assumptions += ['helper contract: names are printable ASCII strings (str.isdigit is the ASCII predicate), non-empty when split at "["; int() of a decimal numeral is an '
+                        'uninterpreted function of its characters; integers mathematical; multibit_add_cable, which uses the two results to place the bit, is covered by the bounded tier only']
+    rep.explanation = ('helper level (P, string VCs over the real AST): EdifParser.separate_name_and_index(X + "[" + D + "]", "[") == (int(D), X) and '
+                       '(X + "_" + D + "_", "_") == (int(D), X) for every non-empty numeral D and ANY text X (brackets / underscores inside it included; '
+                       'Verilog escaped names only in the form "\\text text"), (None, s) for every other string, never raising -- the recognition step under '
+                       '"bit nets written as name[i] / id_i_ are merged into one cable"; everything else: bounded stand-in: contract on sdn.parse(.edf) against an independent writer and canonicaliser '
                        '(libraries, cells, ports, instances with typed properties, per-bit joins, top, identifier + original name, every comment of the '
                        'source as a tuple of strings under its element), '
                        'Inv I1-I4 and self-containment of the result; bundled examples parse + Inv')
     rep.assumptions.append('tier B: everything outside the stated bounds is unexplored; array nets (net (array ..)) are not generated (outside the supported subset)')
     _rtb.run(rep, PID, SCRIPT, tier, seed, SPEC, RULE, gen_bounds=_rtb.HIER_BOUNDS)
+    rep.trusted = list(getattr(rep, 'trusted', []) or []) + ['pyvc/strvc.py (string VC generator: code-point arrays, CPython slice clamping, str.split by one character described by the '
+                                                             'first two / last two separator positions, backwards range loops cut at an invariant, break), z3/cvc5']
 
 
 def replay(path):
+    d = json.load(open(path)); r = d.get('replay') or {}
+    if r.get('kind') == 'string-model':
+        out = run_native('replay_edifsplit.py', {'name': r['name'], 'sep': r['sep']})
+        if isinstance(out, dict) and out.get('agrees') is False:
+            print('REPLAY reproduces on the real code: separate_name_and_index -> %s, contract: %s' % (out.get('got'), out.get('want')))
+            print('VIOLATION property=C05 replay=%s' % path); return 1
+        print('REPLAY does not reproduce on this tree'); return 0
+    if _pv.replay_obligation(path): return 0
     return _rtb.replay(path, PID, SCRIPT)
